@@ -28,6 +28,9 @@ PUBLIC_FUNCS = {
     'C19': [('_as_list', 'as_list', {}), ('_as_list', 'as_tuple', {}), ('_tree', 'tree_to_table', {})],
 }
 NEVER = ['wrapper', 'Path']
+# declared result levels: the schedule functions return a list built by the call itself (a memoised helper's list handed straight out would be
+# shared between callers: one caller's edit would change what an equal later call returns)
+RESULTS = {'_drange:drange': ('SHALLOW', []), '_drange:Calendar.drange': ('SHALLOW', []), '_drange:Calendar.bdays': ('SHALLOW', [])}
 
 
 def replay_of(d):
@@ -39,4 +42,12 @@ def section(ctx, pid):
     if pid not in PUBLIC_FUNCS:
         return 0
     ctx.trust('frame checker path precondition: no argument is a pyg wrapper object or a pathlib.Path')
-    return own.post_all(ctx, own.frame_report(PUBLIC_FUNCS[pid], never_types=NEVER), replay=replay_of)
+    an = own.Analyzer(None, never_types=NEVER)
+    out = []
+    for modname, qual, spec in PUBLIC_FUNCS[pid]:
+        try:
+            rs = own.check_function(an, modname, qual, modifies=spec, label=qual, result=RESULTS.get('%s:%s' % (modname, qual)))
+        except own.SelectorError as e:
+            rs = [own.Res('%s.frame.located' % qual, False, 'SelectorError: %s' % e, modname, kind='undecided')]
+        out += [r.as_dict() for r in rs]
+    return own.post_all(ctx, out, replay=replay_of)
